@@ -85,7 +85,8 @@ ManyIns(n, wlast) == [i \in 1..n |-> In(Hash(i % 256), <<i, 0>>, IF i % 2 = 0 TH
 ManyOuts(n) == [j \in 1..n |-> Out(<<j, 0, j, 0>>, IF j % 3 = 0 THEN Script(j % 256, 2) ELSE <<>>)]
 ManyItems(n) == [k \in 1..n |-> Item(k % 2)]
 CNT == IF Tier = "q" THEN {252, 253} ELSE {252, 253, 254, 300}
-FamC == {MkTx(V1, ManyIns(n, w), ManyOuts(m), Max32N) : n \in CNT, m \in {0, 1} \cup CNT, w \in {<<>>, <<Item(2)>>}}
+FamC == {MkTx(V1, ManyIns(n, w), ManyOuts(m), Max32N) : n \in CNT, m \in (IF Tier = "q" THEN {0, 253} ELSE {0, 1} \cup CNT),
+                                                          w \in {<<>>, <<Item(2)>>}}
         \cup {MkTx(V2, ManyIns(2, ManyItems(n)), ManyOuts(1), Zero32N) : n \in CNT}
         \cup {MkTx(V2, ManyIns(1, <<>>), ManyOuts(n), Zero32N) : n \in CNT}
 
